@@ -54,7 +54,8 @@ def h_timers(ex, ops, horizon=None):
     def get(name):
         if name not in regs:
             kind = name[-1]
-            regs[name] = Reg(ex, w, name, {'+': True, '-': False, '?': 'sym'}[kind])
+            # '2' / 'n': truthy-but-not-True and None return values: 'otherwise never again'
+            regs[name] = Reg(ex, w, name, {'+': True, '-': False, '?': 'sym', '2': 2, 'n': None}[kind])
         return regs[name]
 
     def do_add(r, delta):
@@ -192,6 +193,9 @@ def _histories(tier):
     H.append([['0', 'add', 'p+', '100ms'], ['0', 'add', 'p+', '300ms'], ['0', 'add', 'p+', '1s'], ['10ms', 'rm', 'p+']])
     H.append([['0', 'add', 'a+', '100ms'], ['0', 'add', 'p+', '100ms'], ['0', 'add', 'p+', '100ms'], ['0', 'add', 'b+', '100ms'], ['300ms', 'rm', 'p+']])
     H.append([['0', 'add', 'a+', '100ms'], ['0', 'add', 'b+', '300ms'], ['100ms', 'rm', 'a+']])
+    # return values other than True / False
+    H.append([['0', 'add', 'x2', '100ms'], ['0', 'add', 'p+', '300ms']])
+    H.append([['0', 'add', 'yn', '100ms'], ['0', 'add', 'x2', '10ms']])
     # operations issued from inside a timer callback
     H.append([['0', 'add', 'a+', '100ms'], ['0', 'add', 'b+', '100ms'], ['0', 'rm@', 'b+', None, 'a+']])
     H.append([['0', 'add', 'a+', '100ms'], ['0', 'add', 'b+', '300ms'], ['0', 'rm@', 'b+', None, 'a+']])
